@@ -253,6 +253,20 @@ impl Report {
         }
     }
 
+    /// Child mode (C01's plain-release pass): dump counters and kept violations as JSON.
+    pub fn child_summary(&self) -> Value {
+        json!({
+            "evaluations": self.evaluations.load(Ordering::Relaxed),
+            "states": self.states.len(),
+            "violations_total_observed": self.nviol.load(Ordering::Relaxed),
+            "stopped_early": self.stopped(),
+            "machinery_failures": self.machinery.lock().unwrap().clone(),
+            "outcome_classes": self.classes.lock().unwrap().clone(),
+            "violations": self.violations.lock().unwrap().iter().map(|v| json!({
+                "prop": v.prop, "class": v.class, "case": v.case, "detail": v.detail})).collect::<Vec<_>>(),
+        })
+    }
+
     /// Finish the run: classify violations against the known-findings file, re-execute each
     /// reported counterexample twice through `replay` (identical observation required),
     /// write replay artefacts and the evidence file, print the interface lines.
